@@ -105,7 +105,7 @@ pub fn run_case(case: &Case) -> Outcome {
         }
     };
     out.reference_text = t0.clone();
-    if let Some(msg) = tok::compare(&t0, &subject.expect).or_else(|| tok::shape_mismatch(&t0, &subject.shapes)) {
+    if let Some(msg) = tok::compare(&t0, &subject.expect).or_else(|| tok::shape_mismatch(&t0, &subject.shapes)).or_else(|| tok::bracket_mismatch(&t0, &subject.vparts)) {
         out.violation = Some((Class::Layout, msg));
         return out;
     }
